@@ -243,7 +243,7 @@ def exit_scenario(k, plan, exe, root):
     return res, [('proc_exit', abi, s)], 1
 
 
-def spawn_scenario(k, plan, exe, root, tag, envx=None):
+def spawn_scenario(k, plan, exe, root, tag, envx=None, fail_permille=0):
     r = env.rng('c15-spawn', tag, k)
     d = os.path.join(root, 'sp%s%d' % (tag, k))
     os.makedirs(d)
@@ -252,7 +252,7 @@ def spawn_scenario(k, plan, exe, root, tag, envx=None):
     g = wasih.Guest(plan, 4096)
     g.instantiate()
     g.poke(wasih.LOGCNT, b'\0' * 8)
-    ix = g.emit('X 0 %d %d %d %d' % (plan.fk('thread_spawn'), S, K, wasih.DONECNT), 'X')
+    ix = g.emit('X 0 %d %d %d %d %d' % (plan.fk('thread_spawn'), S, K, wasih.DONECNT, fail_permille), 'X')
     dl = g.dump(wasih.LOGBASE, 8 * S * K + 16)
     dc = g.dump(wasih.LOGCNT, 8)
     rr, out = wasih.run_script(exe, d, g.script(), env_extra=envx, timeout=180)
@@ -270,11 +270,14 @@ def spawn_scenario(k, plan, exe, root, tag, envx=None):
         res.append(('C15:thread-spawn:crash', 'spawn scenario %dx%d: rc %s timeout %s %s' % (S, K, rr.rc, rr.timeout, err[-300:]), files))
     else:
         toks = out[ix].split(' ')
-        pairs = [tuple(int(x) for x in t.split(':')) for t in toks[4:]]
+        injected = int(toks[4].split('=')[1])
+        pairs = [tuple(int(x) for x in t.split(':')) for t in toks[5:]]
         ids = [p[0] for p in pairs]
         okids = [i for i in ids if 0 < i < (1 << 31)]
-        if len(okids) != len(ids):
-            res.append(('C15:thread-spawn:negative-id', '%d of %d spawns returned a non-positive id' % (len(ids) - len(okids), len(ids)), files))
+        # without injected faults every spawn must succeed; with them exactly the spawns whose host thread creation failed must fail
+        if len(ids) - len(okids) != injected:
+            res.append(('C15:thread-spawn:negative-id' if not fail_permille else 'C15:thread-spawn:fault:failure-count',
+                        '%d of %d spawns returned a non-positive id, %d host thread creations were made to fail' % (len(ids) - len(okids), len(ids), injected), files))
         if len(set(okids)) != len(okids):
             dup = sorted(i for i in set(okids) if okids.count(i) > 1)[:4]
             res.append(('C15:thread-spawn:duplicate-id', 'thread ids not pairwise distinct: %s' % dup, files))
@@ -289,7 +292,7 @@ def spawn_scenario(k, plan, exe, root, tag, envx=None):
             res.append(('C15:thread-spawn:exactly-once', '%dx%d spawns: wasi_thread_start log has %d entries (done counter %d) for %d successful spawns; missing %s extra/duplicated %s' % (
                 S, K, logcnt, done, len(want), miss, extra), files))
     shutil.rmtree(d, ignore_errors=True)
-    return res, [('thread-spawn', tag, S, K)], S * K
+    return res, [('thread-spawn', tag + ('+faults' if fail_permille else ''), S, K)], S * K
 
 
 MARK_START = 0x57A27
@@ -406,6 +409,8 @@ def main(chk):
     smod = wasih.trampoline(shared=True, pages=4)
     sexe, splan = wasih.build_driver(w2c2, os.path.join(root, 'build-shared'), smod, SAN, name='stramp')
     texe, tplan = wasih.build_driver(w2c2, os.path.join(root, 'build-tsan'), smod, ['-O1', '-g', '-fsanitize=thread'], name='stramp', defs=['-DW2C2_VERIF=1'])
+    # same driver with the host's thread creation made to fail for a share of the calls (fault injection at the pthread_create boundary)
+    fexe, fplan = wasih.build_driver(w2c2, os.path.join(root, 'build-faults'), smod, SAN + ['-Wl,--wrap=pthread_create'], name='stramp', defs=['-DVERIF_WRAP_PTHREAD_CREATE=1'])
     jobs = []
     nv = 120 if quick else 2500
     for k in range(nv):
@@ -421,6 +426,9 @@ def main(chk):
         jobs.append(lambda k=k: spawn_scenario(k, splan, sexe, root, 'asan'))
     for k in range(60 if quick else 1500):
         jobs.append(lambda k=k: spawn_scenario(k, tplan, texe, root, 'tsan', envx={'TSAN_OPTIONS': 'halt_on_error=0:exitcode=0:report_thread_leaks=0'}))
+
+    for k in range(40 if quick else 600):
+        jobs.append(lambda k=k: spawn_scenario(k, fplan, fexe, root, 'faults', fail_permille=[100, 300, 500, 900][k % 4]))
 
     # module without wasi_thread_start: negative result
     def no_export():
